@@ -124,6 +124,17 @@ template <typename T> struct Runner {
                     if (!checkRegion(of, cn, "getDataDirect(sub)", raw)) return false; }
             }
         }
+        if (subregions) {
+            // a read with an EMPTY count vector and an offset transfers exactly the one element at the offset (raw read path)
+            for (auto &of : rowMajor(Idx(R, 0), st.ext)) {
+                Buf<T> one; alloc(one, 2);      // second element = canary: must stay untouched
+                std::string w; T canary = at(one, 1);
+                if (outcome([&] { A().getDataDirect(dt, one.p(), nix::NDSize(), nd(of)); }, &w) != "ok") { why = "getDataDirect(empty count, offset) threw: " + w; return false; }
+                evals++;
+                if (!(at(one, 0) == Conv<T>::enc(st.cells.at(of), variant))) { why = "getDataDirect(empty count, offset " + json(of).dump() + ") did not return the element at the offset"; return false; }
+                if (!(at(one, 1) == canary)) { why = "getDataDirect(empty count, offset) wrote more than one element"; return false; }
+            }
+        }
         // calibration attributes read back
         if (A().polynomCoefficients() != st.poly) { why = "polynomCoefficients differ"; return false; }
         boost::optional<double> og = A().expansionOrigin();
@@ -144,6 +155,12 @@ template <typename T> struct Runner {
                     else { want = 0; double term = 1; for (double cf : st.poly) { want += cf * term; term *= xx; } }
                 }
                 if (got[q] != want) { std::ostringstream s; s << "calibrated/cross-type read as Double: element " << q << " = " << got[q] << ", expected " << want; why = s.str(); return false; }
+                if (q < 4) {   // the same element through a read with an empty count vector (one element at the offset), calibrated
+                    double two[2] = {-777.0, -778.0};
+                    if (outcome([&] { A().getData(nix::DataType::Double, two, nix::NDSize(), nd(ix[q])); }, &w) != "ok") { why = "getData(Double, empty count, offset) threw: " + w; return false; }
+                    evals++;
+                    if (two[0] != want || two[1] != -778.0) { std::ostringstream s; s << "getData(Double, empty count, offset " << json(ix[q]).dump() << ") = " << two[0] << " (next element " << two[1] << "), expected " << want << " and nothing else written"; why = s.str(); return false; }
+                }
             }
             // as Int64 and Int32 (values are integral for the integer dictionaries; otherwise truncation of the double)
             std::vector<int64_t> g64(ix.size(), -777);
